@@ -73,7 +73,7 @@ def load_known():
         return json.load(fh)["findings"]
 
 
-def finish(rep, explanation, level="other", seed=0, facts_meta=None):
+def finish(rep, explanation, level="other", seed=0, facts_meta=None, write_evidence=True):
     """Apply known findings, print VIOLATION / KNOWN-FINDING lines, write evidence; returns exit code."""
     known = [k for k in load_known() if k["property"] == rep.prop and k["state"] == "known"]
     known_keys = {k["key"]: k for k in known}
@@ -88,12 +88,13 @@ def finish(rep, explanation, level="other", seed=0, facts_meta=None):
             hit_known.append((v, known_keys[v["key"]]))
         else:
             new.append(v)
-    os.makedirs(os.path.join(VERIF, "evidence", "replay"), exist_ok=True)
+    replay_dir = os.path.join(VERIF, "evidence", "replay") if write_evidence else "/tmp/rsj-selftest-replay"
+    os.makedirs(replay_dir, exist_ok=True)
     for v, k in hit_known:
         print("KNOWN-FINDING: property=%s %s [%s] %s" % (rep.prop, k["what"], v["key"], v.get("loc") or ""))
     for v in new:
         safe = "".join(c if c.isalnum() or c in "-_." else "_" for c in v["key"])[:150]
-        rp = os.path.join(VERIF, "evidence", "replay", "%s-%s.json" % (rep.prop, safe))
+        rp = os.path.join(replay_dir, "%s-%s.json" % (rep.prop, safe))
         with open(rp, "w") as fh:
             json.dump({"property": rep.prop, "violation": v,
                        "rerun": "./check %s --tier %s" % (rep.prop, rep.tier),
@@ -139,8 +140,9 @@ def finish(rep, explanation, level="other", seed=0, facts_meta=None):
         "wall_s": round(time.time() - rep.t0, 3),
         "violations": len(new),
     }
-    with open(os.path.join(VERIF, "evidence", "%s.json" % rep.prop), "w") as fh:
-        json.dump(ev, fh, indent=1, default=str)
+    if write_evidence:
+        with open(os.path.join(VERIF, "evidence", "%s.json" % rep.prop), "w") as fh:
+            json.dump(ev, fh, indent=1, default=str)
     print("%s: %d rules, %d obligations (%d discharged), %d known finding(s), %d new violation(s), %.1fs"
           % (rep.prop, len(rep.rules), obligations, discharged, len(hit_known), len(new),
              time.time() - rep.t0))
